@@ -36,7 +36,7 @@ def run_case(cs):
         par = rng.choice(dirs)
         tree[(par + "/" if par else "") + n] = world.gen_bytes(rng)
     d = cs.dir()
-    root = os.path.join(d, "R " + world.gen_name(rng, "plain", ext=False))
+    root = os.path.join(d, world.root_name(rng, "R "))
     world.write_tree(root, tree)
     subdirs = [x for x in tree if tree[x] is None]
     nested = rng.sample(subdirs, min(len(subdirs), rng.choice([0, 0, 1, 2])))
